@@ -65,6 +65,13 @@ def seam_check(e):
             raise HarnessError("seam missing: " + m)
 
 
+def need(obj, *names):
+    """the harness is about to replace or drive these private members: they must exist in the tree under test"""
+    for n in names:
+        if not hasattr(obj, n):
+            raise HarnessError("seam missing: %s has no attribute '%s'" % (getattr(obj, "__name__", type(obj).__name__), n))
+
+
 def drive(coro):
     """Run a coroutine whose awaits never suspend (rule R5)."""
     try:
